@@ -1,6 +1,7 @@
 (** C04 - Key rollover is safe in every interleaving and always completes.
     Only statements; proofs in ca/CaProofs.v and ca/CaObjProofs.v. *)
 From KV Require Import base.Tac ca.Ca ca.CaProofs ca.CaObjProofs ca.CaCheck ca.CaMirrorProofs ca.KeyCheck.
+From KV Require Import ca.Migrate ca.MigrateCheck ca.MigrateProofs.
 Open Scope N_scope.
 
 (** No event emitted by a key life-cycle command can hit a panicking arm of [apply]. *)
@@ -108,6 +109,68 @@ Theorem C04_activation_guard_oracle : forall n cur obs,
   (if k_req n || k_req cur then obs = ORefused else obs = OEvents [1]).
 Proof. exact k_ok_activate_iff. Qed.
 
+(** Repository migration rides on the key roll (model ca/Migrate.v, third scenario `migrate`): in every state
+    reachable by any interleaving of migrations, roll steps of the individual classes, class additions and
+    removals, certificate re-issues and clean-ups, a repository that is on the deprecated list - which the next
+    synchronisation empties completely - is not the place where any key set of any class publishes. *)
+Theorem C04_migration_safe : forall r0 st, reachable r0 st ->
+  forall r c cs s, In r (m_depr st) -> In (c, cs) (m_classes st) -> In s (sets_of cs) -> publishes_at (m_repo st) s <> r.
+Proof. exact migration_safe. Qed.
+
+(** ... and this depends on [has_old_repo] looking at BOTH sets of a class in the Staging state, and on a migration
+    never targeting a repository that still awaits its clean-up (which the code does not prevent). *)
+Theorem C04_migration_weak_arm_refuted :
+  exists st, run_weak (minit 0) critical_ops = Some st /\ ~ safe st.
+Proof. exact weak_has_old_repo_refuted. Qed.
+
+Theorem C04_migration_needs_cleanup_first_refuted :
+  exists st, reachable_any 0 st /\ ~ safe st.
+Proof. exact migration_safe_needs_admissible_refuted. Qed.
+
+(** Every key set publishes at the repository its key's certificate points to, provided no certificate is
+    re-issued for a key that is still tied to the old repository; with such a re-issue it does not. *)
+Theorem C04_migration_located : forall r0 st, reachable_loc r0 st ->
+  forall c cs, In (c, cs) (m_classes st) ->
+    (forall s, In s (sets_of cs) -> publishes_at (m_repo st) s = s_at s) /\ pend_ok (m_repo st) cs.
+Proof. exact migration_located. Qed.
+
+Theorem C04_migration_located_refuted : exists st, reachable 0 st /\ ~ located st.
+Proof. exact located_refuted. Qed.
+
+(** The migration completes: the step that takes the last set away from a repository puts it on the deprecated
+    list, and once every class is back to a single active key the repository migrated away from is deprecated
+    (or already cleaned). *)
+Theorem C04_migration_last_user_deprecates : forall st op st' x,
+  Inv st -> mstep st op = Some st' -> uses st x -> ~ uses st' x -> In x (m_depr st').
+Proof. exact last_user_deprecates. Qed.
+
+Theorem C04_migration_completes : forall ops st st' x,
+  Inv st -> all_admissible st ops -> run st ops = Some st' ->
+  uses st x ->
+  (forall c cs, In (c, cs) (m_classes st') -> finished cs) ->
+  In x (m_depr st') \/ In (OClean x) ops.
+Proof. exact old_repo_deprecated_when_done. Qed.
+
+Theorem C04_migration_invariant_reachable : forall r0 st, reachable r0 st -> Inv st.
+Proof. exact reachable_inv. Qed.
+
+(** Tie: the oracle of the scenario evaluates exactly the invariant / the safety statement on the implementation's
+    states, and a case on which model and implementation agree carries the invariant from its first state to the
+    states after the command and after the repository synchronisation. *)
+Theorem C04_migration_invariant_executable : forall st, inv_b st = true <-> Inv st.
+Proof. exact inv_b_spec. Qed.
+
+Theorem C04_migration_safe_executable : forall st, safe_b st = true <-> safe st.
+Proof. exact safe_b_spec. Qed.
+
+Theorem C04_migration_located_executable : forall st, located_b st = true <-> located st.
+Proof. exact located_b_spec. Qed.
+
+Theorem C04_migration_agrees_keeps_invariant : forall c,
+  m_agrees c = true -> m_adm c = true -> Inv (mc_pre c) -> Inv (mc_mid c) /\ Inv (mc_post c).
+Proof. exact agrees_keeps_invariant. Qed.
+
+
 Print Assumptions C04_activation_guard_oracle.
 Print Assumptions C04_listener_accepts_and_mirrors.
 Print Assumptions C04_listener_class_view.
@@ -126,3 +189,15 @@ Print Assumptions C04_unsuspend_keeps_disjoint.
 Print Assumptions C04_suspend_keeps_disjoint.
 Print Assumptions C04_remove_keeps_disjoint.
 Print Assumptions C04_activation_keeps_issued.
+Print Assumptions C04_migration_safe.
+Print Assumptions C04_migration_weak_arm_refuted.
+Print Assumptions C04_migration_needs_cleanup_first_refuted.
+Print Assumptions C04_migration_located.
+Print Assumptions C04_migration_located_refuted.
+Print Assumptions C04_migration_last_user_deprecates.
+Print Assumptions C04_migration_completes.
+Print Assumptions C04_migration_invariant_reachable.
+Print Assumptions C04_migration_invariant_executable.
+Print Assumptions C04_migration_safe_executable.
+Print Assumptions C04_migration_located_executable.
+Print Assumptions C04_migration_agrees_keeps_invariant.
